@@ -308,19 +308,25 @@ def stepStoreIn (cfg : Cfg) (s : St) (a : Actor) (u : Nat) (v : Bool) : Option S
       (if isPopMany (s.cur a) = true ∧ s.cnt a ≠ 0 then .csPop else leave cfg (s.cur a)))
   | _ => none
 
+/-- the unit `thread_queue_pop_head` / `_pop_tail` selects (0 = NULL: `num_threads == 0`) and what it leaves -/
+def takeUnit (q : List Nat) (tl : Bool) : Nat := if tl then q.getLast?.getD 0 else q.head?.getD 0
+def takeRest (q : List Nat) (tl : Bool) : List Nat := if tl then q.dropLast else q.tail
+
 /-- hook 26: `thread_queue_pop_head/tail` selects the unit at its end (or finds `num_threads == 0`) -/
 def stepTake (cfg : Cfg) (s : St) (a : Actor) (r : Nat) (head : Bool) : Option St :=
-  let tl := tailOf (s.cur a)
-  let x := if tl then s.q.getLast?.getD 0 else s.q.head?.getD 0
-  let rest := if tl then s.q.dropLast else s.q.tail
-  if s.pc a ≠ .csPop ∨ s.owner ≠ some a ∨ head = tl ∨ r ≠ x then none else
-  let s1 := { s with linOps := s.linOps ++ [popOp tl], linOuts := s.linOuts ++ [TQ.Out.popped x] }
+  if s.pc a ≠ .csPop ∨ s.owner ≠ some a ∨ head = tailOf (s.cur a) ∨ r ≠ takeUnit s.q (tailOf (s.cur a)) then none else
   if s.q = [] then
-    some (setPc { s1 with sawEmpty := upd s.sawEmpty a true } a (leave cfg (s.cur a)))
+    some (setPc { s with sawEmpty := upd s.sawEmpty a true,
+                         linOps := s.linOps ++ [popOp (tailOf (s.cur a))],
+                         linOuts := s.linOuts ++ [TQ.Out.popped (takeUnit s.q (tailOf (s.cur a)))] } a (leave cfg (s.cur a)))
   else
-    some (setPc { s1 with q := rest, got := upd s.got a (s.got a ++ [x]), cnt := upd s.cnt a (s.cnt a - 1),
-                          pu := upd s.pu a x, lagF := if rest = [] then some a else s.lagF } a
-      (if rest = [] then .pubE else .clrIn))
+    some (setPc { s with q := takeRest s.q (tailOf (s.cur a)),
+                         got := upd s.got a (s.got a ++ [takeUnit s.q (tailOf (s.cur a))]),
+                         cnt := upd s.cnt a (s.cnt a - 1), pu := upd s.pu a (takeUnit s.q (tailOf (s.cur a))),
+                         lagF := if takeRest s.q (tailOf (s.cur a)) = [] then some a else s.lagF,
+                         linOps := s.linOps ++ [popOp (tailOf (s.cur a))],
+                         linOuts := s.linOuts ++ [TQ.Out.popped (takeUnit s.q (tailOf (s.cur a)))] } a
+      (if takeRest s.q (tailOf (s.cur a)) = [] then .pubE else .clrIn))
 
 /-- hook 27: `thread_queue_remove` found `num_threads != 0` and `is_in_pool == 1`.  The unit must be in *this*
 queue (the flag is per unit, not per queue): otherwise the call is outside the contract -/
